@@ -348,7 +348,7 @@ func storeDomain(lines []string) []string {
 				delete(sc.insts, n)
 			}
 			out = append(out, "drop")
-		case "pub", "replaypub", "pubflaky", "pubhookpanic":
+		case "pub", "replaypub", "pubflaky", "pubhookpanic", "pubdead":
 			// publish through a bus built on the store (options in either order, persistence timeout set):
 			// the handler looks the log up while it runs
 			in := sc.cur
@@ -408,6 +408,21 @@ func storeDomain(lines []string) []string {
 				default:
 					out = append(out, fmt.Sprintf("!pubhookpanic recorded=%v handler=%s", recorded, in.pubSeen))
 				}
+				break
+			}
+			if f[0] == "pubdead" {
+				// a publish whose context is already over: no handler runs; the store may refuse the record (then the failure
+				// is reported once) – and the publishes after it are persisted normally
+				if sc.kind == "ds" {
+					out = append(out, "pubdead skip")
+					break
+				}
+				before := in.perrs
+				dctx, dcancel := context.WithCancel(context.Background())
+				dcancel()
+				eb.PublishContext(in.bus, dctx, mkPub(rec))
+				evs, _, _ := in.st.Read(context.Background(), eb.OffsetOldest, 0)
+				out = append(out, fmt.Sprintf("pubdead n=%d perr=%d handler=%s", len(evs), in.perrs-before, b01(in.pubSeen != "handler-not-run")))
 				break
 			}
 			if f[0] == "pubflaky" {
@@ -502,6 +517,22 @@ func storeDomain(lines []string) []string {
 			r2, _ := showEvs(p2, sc.cur.padded)
 			same := r1 == r2
 			out = append(out, fmt.Sprintf("streamtwice n=%d same=%s", len(p1), b01(same)))
+		case "appenddead":
+			if sc.kind == "ds" {
+				out = append(out, "appenddead skip")
+				continue
+			}
+			// an append whose context is already over: it may be refused (a store that honours contexts), and whatever it
+			// answers the store works normally afterwards
+			dctx, dcancel := context.WithCancel(ctx)
+			dcancel()
+			off, err := sc.cur.st.Append(dctx, mkEvent(atoi(f[1]), sc.cur.padded))
+			if err != nil {
+				out = append(out, "appenddead err")
+			} else {
+				sc.cur.appOffs = append(sc.cur.appOffs, string(off))
+				out = append(out, "appenddead "+string(off))
+			}
 		case "appendnil":
 			// an event without a payload is not a JSON document: the SQLite store refuses it and the log stays readable
 			if sc.kind != "sqlite" {
@@ -567,7 +598,9 @@ func storeDomain(lines []string) []string {
 				st = &pagedOnly{inner: sc.cur.st, readFail: readFail, appends: &appends}
 			}
 			handlerCalls := 0
-			bus := eb.New(eb.WithStore(st), eb.WithReplayBatchSize(bs))
+			// the store option is given twice (a default first, the real one later): the last one is the bus's store in
+			// every respect, also for the choice between streaming and paged replay
+			bus := eb.New(eb.WithStore(eb.NewMemoryStore()), eb.WithStore(st), eb.WithReplayBatchSize(bs))
 			eb.Subscribe(bus, func(e *eb.StoredEvent) { handlerCalls++ })
 			eb.Subscribe(bus, func(e eb.StoredEvent) { handlerCalls++ })
 			rctx, cancel := context.WithCancel(ctx)
@@ -673,6 +706,18 @@ func storeDomain(lines []string) []string {
 			}
 			if errs > 0 {
 				out = append(out, fmt.Sprintf("~raceappend refused=%d of %d", errs, g*n))
+			}
+			byOff := map[string]int{}
+			dup := ""
+			for rec, off := range acked {
+				if other, ok := byOff[off]; ok {
+					dup = fmt.Sprintf("!raceappend events %d and %d were both acknowledged with offset %q", other, rec, off)
+				}
+				byOff[off] = rec
+			}
+			if dup != "" {
+				out = append(out, dup)
+				continue
 			}
 			if sc.kind == "ds" {
 				out = append(out, "raceappend ok") // read-back over chunks is the known finding's territory
